@@ -90,5 +90,6 @@ void harness(void)
 
     eav_free(&e);
     VF_ASSERT(e.result == NULL, "C13: eav_free releases the result");
+    VF_FORGET(cb_last_result);
     VF_END();
 }
